@@ -467,4 +467,23 @@ example : (split exHeap (.ref 0) [.ofType "Param", .everything]).toOption.map (f
     some [[[.str "child", .str "w"]], [[.str "child", .str "arr"], [.str "xs", .int 3, .str "k"]]] := by
   decide
 
+example : (state exHeap (.ref 0) []).toOption.map (·.map (·.map (·.1))) =
+    some [[[.str "child", .str "arr"], [.str "child", .str "w"], [.str "xs", .int 3, .str "k"]]] := by decide
+
+/-- a cycle `m.child.parent = m` and one `Intermediate` shared by `m.i`, `m.child.i` and `m.child.j` -/
+def exHeapP : Heap :=
+  [ .node "A" [(.str "child", .ref 1), (.str "i", .ref 2), (.str "w", .ref 3)],
+    .node "B" [(.str "parent", .ref 0), (.str "j", .ref 2), (.str "i", .ref 2)],
+    .var ["Intermediate", "Variable"] 5 [],
+    .var ["Param", "Variable"] 7 [] ]
+
+example : Heap.wf exHeapP = true := by decide
+
+/-- `pop_exact`'s hypothesis holds here; all three references to the shared Variable are removed, it is
+returned once, under `('child', 'i')` -/
+example : (pop true exHeapP (.ref 0) [.ofType "Intermediate"]).toOption =
+    some ([ .node "A" [(.str "child", .ref 1), (.str "w", .ref 3)], .node "B" [(.str "parent", .ref 0)],
+            .var ["Intermediate", "Variable"] 5 [], .var ["Param", "Variable"] 7 [] ],
+          [[([.str "child", .str "i"], .vstate ["Intermediate", "Variable"] 5 [])]]) := by decide
+
 end Flax.C03
